@@ -1,14 +1,20 @@
 import McpModel.Base.Proto
 import McpModel.Resume.Model
+import McpModel.Resume.Monitor
 /-!
 Driver for E5 (C08, C10).
 
 * model side: every harness op is translated into the label list of `Resume.Model` it stands for
   (e.g. `sclose` = SCLOSE then CUT of the released exchange; `delete` = END then CUT of every hanging
-  exchange) and the model's observation is rendered in the harness' canonical format;
-* monitor side: C08 and C10 as decidable predicates on what the *implementation* reported
-  (independent of the model state): ground-truth append log per (session, stream), per exchange the
-  received (id, payload) list, the routing function on payload provenance tags.
+  exchange; evictions the store reports (`p:` tokens) become EVICT labels) and the model's observation is
+  rendered in the harness' canonical format;
+* monitor side: C08 and C10 are the typed core `Resume.Mon.step` (`McpModel.Resume.Monitor`) — decidable
+  predicates on what the *implementation* reported, independent of the model state: ground-truth append
+  log per (session, stream), per exchange the resume point and the events received, the routing function on
+  payload provenance tags.  This file only parses the harness' tokens into the typed observation
+  (`parseObs`) and adds two op-level checks (a response the handler produced must not vanish).  That the
+  core raises no clause on any model trace, and what each clause means, are theorems
+  (`Accept08`, `Accept10`, `Sound08`, `Sound10`).
 
 `drv_resume C08` / `drv_resume C10` restrict the reported monitor clauses to one property.
 Payloads are opaque strings (`α := String`).
@@ -33,28 +39,11 @@ structure DSess where
   names     : List SId := []        -- stream ids in order of first appearance: printed name of `names[i]` is t(i+1)
   reqIds    : List ReqId := []      -- every request id ever POSTed on this session (to enumerate `requestStreams`)
 
-structure MExch where
-  k       : Nat
-  sess    : String
-  ids     : List Nat := []          -- request ids of the POST that opened it
-  isGet   : Bool := false
-  isListen : Bool := false
-  stream  : Option String := none   -- canonical stream it serves (learned from ids / header / snapshot)
-  «from»  : Nat := 0
-  nsent   : Nat := 0                -- id-carrying events written (delivered or lost)
-  nrecv   : Nat := 0
-  failing : Bool := false
-  sse     : Bool := false
-  fresh   : Bool := true            -- created by the current op
-  newProto : Bool := false          -- ≥ 2026-07-28: outside C08
-
-structure Mon where
-  exs    : List MExch := []
-  logs   : List ((String × String) × List String) := []    -- ground truth: appended payloads per (session, stream)
-  idmap  : List ((String × String) × String) := []         -- (session, event id) ↦ payload
-  posts  : List ((String × String) × Nat) := []            -- (session, stream) ↦ POST exchange that created it
-  gone   : List String := []                                -- sessions that were deleted / killed
-  viol   : Option String := none
+structure DMon where
+  core   : Mon.MonS String String := { store := false, jsonMode := false }   -- the typed monitor core
+  gone   : List String := []                                                -- sessions that were deleted / killed
+  extra10 : Option String := none                                           -- op-level clause of the last record
+  inflight : List (String × Nat) := []                                      -- (session, id): calls accepted and not yet finished by their handler
 
 structure DState where
   cfg    : Option Cfg := none
@@ -62,7 +51,10 @@ structure DState where
   jsonM  : Bool := false
   sess   : List DSess := []
   nex    : Nat := 0
-  mon    : Mon := {}
+  mon    : DMon := {}
+  evicts : List (String × String × Nat) := []   -- evictions the store reported in this record, not yet applied to the model
+  ptoks  : List String := []                    -- their tokens (echoed in the model's observation)
+  win    : Bool := false                        -- `racerg`: the harness reports that the write was parked inside the window
 
 def getSess (d : DState) (n : String) : Option DSess := d.sess.find? (·.name == n)
 
@@ -240,7 +232,7 @@ def renderDelta (old new : DState) (extra : List String) (snaps : List String) :
         snapTxt := snapTxt ++ [txt]
       | none => snapTxt := snapTxt ++ ["S" ++ n ++ "[?]"]
     let endTxt := (sortNat ends).map fun k => s!"x{k}."
-    return (" ".intercalate (byK opened ++ extra ++ apps ++ byK items ++ endTxt ++ snapTxt), cur)
+    return (" ".intercalate (byK opened ++ extra ++ apps ++ old.ptoks ++ byK items ++ endTxt ++ snapTxt), cur)
 
 /-- Apply labels to a session's connection, extending the exchange map when an exchange is created. -/
 def applyLabels (d : DState) (s : DSess) (ls : List (Label String)) : DState × DSess × Res :=
@@ -289,6 +281,28 @@ def settle (d : DState) (s : DSess) : DState × DSess :=
         let r := applyLabels d s [.cut ex]
         d := r.1; s := r.2.1
     return (d, s)
+
+/-- apply the evictions the store reported (`p:<sess>:<stream>:<first>`) to the sessions' connections -/
+def applyEvicts (d : DState) : DState :=
+  let d' := d.evicts.foldl (fun (acc : DState) (x : String × String × Nat) =>
+    match getSess acc x.1 with
+    | none => acc
+    | some s =>
+      let sid : Option SId := if x.2.1 == "t0" then some 0 else
+        match ((x.2.1.drop 1).toString.toNat?) with
+        | some n => s.names[n - 1]?
+        | none => none
+      match sid with
+      | none => acc
+      | some sid => putSess acc { s with conn := step s.conn (.evict sid x.2.2) }) d
+  { d' with evicts := [] }
+
+/-- `p:<sess>:<stream>:<first>` tokens -/
+def parsePurges (itoks : List String) : List (String × String × Nat) :=
+  itoks.filterMap fun t =>
+    match t.splitOn ":" with
+    | ["p", s, st, f] => f.toNat?.map fun n => (s, st, n)
+    | _ => none
 
 def mkCfg (d : DState) (stateless : Bool) : Cfg :=
   { stateless := stateless, jsonResponse := d.jsonM, hasStore := d.store, noSession := stateless }
@@ -344,6 +358,22 @@ def modelOp (d : DState) (toks : List String) : Option OpOut :=
         let s1 := if dup then s1 else { s1 with parked := s1.parked ++ ids }
         let (d2, s2) := settle d1 s1
         { d := putSess d2 s2, snaps := [n] }
+  | "duprace" :: n :: _ =>
+    -- two POSTs with the same call ids; the first (exchange nex+1) is held inside `EventStore.Open` — i.e. in front of
+    -- its check-and-register section — while the second (exchange nex+2) runs: the second is served first
+    let ids := parseIds (kvGet toks "ids")
+    let v := parseVer (kvGet toks "hv")
+    some <| withSess d n fun s =>
+      if s.gone then let (d1, t) := handlerExch d 404; { d := d1, extra := [t], endsX := [d1.nex], snaps := [n] } else
+      let dup := (dedup ids).any fun r => (s.conn.reqStreams r).isSome
+      let c1 := step s.conn (.post ids false v none)      -- B
+      let c2 := step c1 (.post ids false v none)          -- A: refused, the id is in flight now
+      let s1 := { s with conn := c2, reqIds := s.reqIds ++ ids, exMap := s.exMap ++ [d.nex + 2, d.nex + 1] }
+      let s1 := ((List.range s1.conn.nextSid).filter fun sid => (s1.conn.store sid).isSome).foldl nameSid s1
+      let s1 := if dup then s1 else { s1 with parked := s1.parked ++ ids }
+      let d1 := { d with nex := d.nex + 2 }
+      let (d2, s2) := settle d1 s1
+      { d := putSess d2 s2, snaps := [n] }
   | "listen" :: n :: _ =>
     let id := ((kvGet toks "id").bind String.toNat?).getD 0
     let s : DSess := { name := n, conn := init (mkCfg d true), stateless := true, newProto := true, listenS := true, parked := [id], reqIds := [id] }
@@ -472,6 +502,35 @@ def modelOp (d : DState) (toks : List String) : Option OpOut :=
         let s1 := if res == .broken then { s1 with dead := true } else s1
         let (d2, s2) := settle d1 s1
         { d := putSess d2 s2, snaps := [n] }
+  | "racerg" :: rest =>
+    -- the write is held between its routing section and its delivery section while the GET runs (`win=1`, a tree with the
+    -- yield hook); without the hook (`win=0`) the write simply completes first
+    match rest.span (· != "|") with
+    | ([n, r, x, kind, flag, serial], _ :: (gn :: gargs)) =>
+      some <| withSess d n fun s =>
+        let rid := r.toNat?.getD 0
+        let tag := ".".intercalate [n, r, x, flag, serial]
+        let isCall := kind == "C"
+        let ctx := if flag == "c" then some rid else none
+        let msg : Msg String := if isCall then .call ("C." ++ tag) else .notif ("N." ++ tag)
+        let g : Label String := .get (parseHdr s (kvGet gargs "last")) (parseVer (kvGet gargs "hv")) (parseBudget (kvGet gargs "b"))
+        if gn != n then { d := d, snaps := [n] } else
+        let win := d.win
+        let (d1, s1, res) :=
+          if win then
+            let (da, sa, r1) := applyLabels d s [.wroute msg ctx false]
+            if r1 != .na then
+              -- refused by the routing section: nothing pending
+              let (db, sb, _) := applyLabels da sa [g]
+              (db, sb, r1)
+            else
+              let (db, sb, _) := applyLabels da sa [g]
+              applyLabels db sb [.wdeliver sa.conn.pendW.length.pred]
+          else applyLabels d s [.write msg ctx false, g]
+        let s1 := if isCall && res == .ok then { s1 with calls := s1.calls ++ [(tag, ctx, false)] } else s1
+        let (d2, s2) := settle d1 s1
+        { d := putSess d2 s2, snaps := [n], tail := " w=" ++ showRes res isCall ++ " win=" ++ (if win then "1" else "0") }
+    | _ => none
   | "racewg" :: rest | "racegw" :: rest =>
     let writeFirst := toks.head? == some "racewg"
     match rest.span (· != "|") with
@@ -485,27 +544,26 @@ def modelOp (d : DState) (toks : List String) : Option OpOut :=
         let w : Label String := .write msg ctx false
         let g : Label String := .get (parseHdr s (kvGet gargs "last")) (parseVer (kvGet gargs "hv")) (parseBudget (kvGet gargs "b"))
         if gn != n then { d := d, snaps := [n] } else
+        -- (the harness lifts the store's limit for the duration of a race: evictions reported in this record happened
+        -- after both parties were done and are applied at the end of the op, like for any other op)
         let (d1, s1, res) := applyLabels d s (if writeFirst then [w, g] else [g, w])
         let s1 := if isCall && res == .ok then { s1 with calls := s1.calls ++ [(tag, ctx, false)] } else s1
         let (d2, s2) := settle d1 s1
         { d := putSess d2 s2, snaps := [n], tail := " w=" ++ showRes res isCall }
     | _ => none
+  | ["purge", _] => some { d := d }
+  | ["maxbytes", _] => some { d := d }
   | _ => none
 
-/-! ## monitor side (on the implementation's observation only) -/
+/-! ## monitor side (on the implementation's observation only)
 
-def Mon.fail (m : Mon) (c : String) : Mon := if m.viol.isSome then m else { m with viol := some c }
+The property monitors are the typed core `Resume.Mon.step` (`McpModel.Resume.Monitor`; its behaviour on the
+model's own observations and the meaning of every clause are theorems of `McpModel.Resume.Bridge*`).  What
+follows is the string layer: the harness' tokens are parsed into an `Mon.Obs String String` — session names
+and payloads stay strings, stream names `t<n>` and exchange names `x<k>` become numbers. -/
 
-def Mon.getEx (m : Mon) (k : Nat) : Option MExch := m.exs.find? (·.k == k)
-def Mon.putEx (m : Mon) (e : MExch) : Mon :=
-  if m.exs.any (·.k == e.k) then { m with exs := m.exs.map fun x => if x.k == e.k then e else x }
-  else { m with exs := m.exs ++ [e] }
-
-def Mon.log (m : Mon) (sess stream : String) : List String := (m.logs.lookup (sess, stream)).getD []
-
-def Mon.append (m : Mon) (sess stream p : String) : Mon :=
-  let cur := m.log sess stream
-  { m with logs := (m.logs.filter (·.1 != (sess, stream))) ++ [((sess, stream), cur ++ [p])] }
+/-- `t3` ↦ 3 -/
+def parseT (t : String) : Option Nat := if t.startsWith "t" then (t.drop 1).toString.toNat? else none
 
 /-- split `t3_12` into stream name and index -/
 def splitEvId (id : String) : Option (String × Nat) :=
@@ -513,314 +571,168 @@ def splitEvId (id : String) : Option (String × Nat) :=
   | [t, i] => i.toNat?.map fun n => (t, n)
   | _ => none
 
-/-- provenance of a payload tag: `R.<id>.<sess>.<req>.x<post>`, `N|C|X.<sess>.<req>.x<post>.<c|d>.<serial>` -/
-inductive Prov where
-  | resp (id : String) (sess : String) (req : String) (post : Nat)
-  | initResp (id : String)
-  | inReq (sess : String) (req : String) (post : Nat)      -- notification / call issued with the request's context
-  | detached (sess : String)
-  | server                                                  -- list_changed / acknowledged: server-initiated
-  | other
+def parseEvId (id : String) : Mon.EvId :=
+  if id == "-" then .none else
+  match splitEvId id with
+  | some (t, i) => match parseT t with
+    | some n => .ok n i
+    | none => .bad
+  | none => .bad
 
-def provOf (p : String) : Prov :=
+/-- provenance of a payload tag: `R.<id>.<sess>.<req>.x<post>`, `N|C|X.<sess>.<req>.x<post>.<c|d>.<serial>` -/
+def provOf (p : String) : Mon.Prov String :=
   match p.splitOn "." with
-  | ["R", id, "init"] => .initResp id
-  | ["R", id, s, r, x] => .resp id s r (parseX x)
-  | [k, s, r, x, "c", _] => if k == "N" || k == "C" || k == "X" then .inReq s r (parseX x) else .other
+  | ["R", id, "init"] => match id.toNat? with
+    | some i => .initResp i
+    | none => .other
+  | ["R", id, s, r, x] => match id.toNat?, r.toNat? with
+    | some i, some q => .resp i s q (parseX x)
+    | _, _ => .other
+  | [k, s, r, x, "c", _] => if k == "N" || k == "C" || k == "X" then .inReq s (r.toNat?.getD 0) (parseX x) else .other
   | [k, s, _, _, "d", _] => if k == "N" || k == "C" || k == "X" then .detached s else .other
   | "U" :: _ => .server
   | _ => .other
 
-/-- C10: may a message with provenance `pv` appear on (session `sess`, stream `stream`, exchange `k`)?
-`stream` is the canonical stream the exchange serves when known. -/
-def routeOK (m : Mon) (jsonMode : Bool) (pv : Prov) (sess : String) (stream : Option String) (k : Option Nat) : Option String :=
-  let ownExchange (ps : String) (post : Nat) : Bool :=
-    ps == sess &&
-    (k == some post ||
-      match stream with
-      | some t => (m.posts.lookup (sess, t)) == some post
-      | none => false)
-  let standaloneOrListen : Bool :=
-    stream == some "t0" ||
-      (match k with
-       | some k => ((m.getEx k).map (·.isListen)).getD false
-       | none => false) ||
-      (match stream with
-       | some t => match m.posts.lookup (sess, t) with
-         | some p => ((m.getEx p).map (·.isListen)).getD false
-         | none => false
-       | none => false)
-  match pv with
-  | .resp id ps req post =>
-    if id != req then some "C10: response carries another id than the request it answers"
-    else if ownExchange ps post then none
-    else if ps != sess then some "C10: response delivered to another session"
-    else some "C10: response delivered on an exchange or stream that does not belong to its request"
-  | .initResp id =>
-    let ok : Bool := match k, stream with
-      | some k, _ => match m.getEx k with
-        | some e => e.ids.contains (id.toNat?.getD 0) ||
-            (match e.stream with
-             | some t => match m.posts.lookup (sess, t) with
-               | some p => ((m.getEx p).map (fun pe => pe.ids.contains (id.toNat?.getD 0))).getD false
-               | none => false
-             | none => false)
-        | none => false
-      | none, some t => match m.posts.lookup (sess, t) with
-        | some p => ((m.getEx p).map (fun pe => pe.ids.contains (id.toNat?.getD 0))).getD false
-        | none => false
-      | none, none => false
-    if ok then none else some "C10: initialize response delivered on an exchange that does not belong to its request"
-  | .inReq ps req post =>
-    if ps != sess then some "C10: in-request message delivered to another session"
-    else if jsonMode then
-      if standaloneOrListen then none else some "C10: JSON mode: in-request message not on the standalone/listen stream"
-    else if ownExchange ps post then none
-    else
-      -- the one shape that needs a protocol-violating client: the request id was reused for a later
-      -- request of the same session and the straggler of the finished request lands on the new stream
-      let reusedId : Bool := match stream with
-        | some t => match m.posts.lookup (sess, t) with
-          | some p => p != post && ((m.getEx p).map (fun pe => pe.ids.contains (req.toNat?.getD 0))).getD false
-          | none => false
-        | none => false
-      if reusedId then some "C10: straggler of a finished request delivered on the stream of a later request that reuses its id (client reused a request id within the session)"
-      else some "C10: in-request message routed to a stream that does not belong to its request"
-  | .detached ps =>
-    if ps != sess then some "C10: detached message delivered to another session"
-    else if standaloneOrListen then none
-    else some "C10: detached message routed to a request stream instead of the standalone/listen stream"
-  | .server =>
-    if standaloneOrListen then none else some "C10: server-initiated notification routed to a request stream"
-  | .other => some "C10: unrecognised payload on the wire"
+/-- one write `K`, `Z`, `P/<id>`, `M/<id>/<payload>`, `J/<p1>,<p2>` -/
+def parseOut (ev : String) : Mon.MOut String :=
+  match ev.splitOn "/" with
+  | ["K"] => .comment
+  | ["Z"] => .close
+  | "J" :: rest => .json (("/".intercalate rest).splitOn ",")
+  | kind :: id :: rest => if kind == "P" then .prime (parseEvId id) else .message (parseEvId id) ("/".intercalate rest)
+  | _ => .junk
 
-/-- one delivered (`lost = false`) or lost event on exchange k -/
-def Mon.onEvent (m : Mon) (store jsonMode : Bool) (k : Nat) (lost : Bool) (ev : String) : Mon :=
-  match m.getEx k with
-  | none => m.fail "C10: bytes written to an exchange that was never opened"
-  | some e =>
-    let parts := ev.splitOn "/"
-    match parts with
-    | ["K"] | ["Z"] => m
-    | "J" :: rest =>
-      -- JSON body: responses of this POST only
-      let ps := ("/".intercalate rest).splitOn ","
-      ps.foldl (fun (m : Mon) p =>
-        match routeOK m jsonMode (provOf p) e.sess e.stream (some k) with
-        | some c => m.fail c
-        | none => match provOf p with
-          | .resp .. | .initResp .. => m
-          | _ => m.fail "C10: a non-response was put into an application/json response") m
-    | kind :: id :: rest =>
-      let p := if kind == "P" then "-" else "/".intercalate rest
-      -- C10 first (works without a store)
-      let m := if kind == "P" then m else
-        match routeOK m jsonMode (provOf p) e.sess e.stream (some k) with
-        | some c => m.fail c
-        | none => m
-      if id == "-" || e.newProto then m
-      else
-        match splitEvId id with
-        | none => m.fail "C08: malformed event id on the wire"
-        | some (t, i) =>
-          -- the stream an exchange serves: fixed by the Last-Event-ID header, else by its first event id
-          let e := if e.stream.isNone then { e with stream := some t } else e
-          let m := if e.stream != some t then m.fail "C08: event id names another stream than the one this exchange serves" else m
-          let m := if i != e.from + e.nsent then
-              m.fail (if i < e.from + e.nsent then "C08: event id repeated or reordered (not the next index after the resume point)"
-                      else "C08: gap in event ids (an index after the resume point was skipped)") else m
-          let log := m.log e.sess t
-          let m := match log[i]? with
-            | none => m.fail "C08: delivered event has no entry at that index of the ground-truth append log"
-            | some q => if q == p then m else m.fail "C08: delivered payload differs from what was appended at that index"
-          let m := match m.idmap.lookup (e.sess, id) with
-            | none => { m with idmap := m.idmap ++ [((e.sess, id), p)] }
-            | some q => if q == p then m else m.fail "C08: the same event id denotes different payloads on different deliveries"
-          let e := { e with nsent := e.nsent + 1, nrecv := if lost then e.nrecv else e.nrecv + 1, failing := e.failing || lost }
-          m.putEx e
-    | _ => m.fail "C10: unparsable event token"
+/-- `x3+<event>` (delivered) / `x3!<event>` (written into a failing writer) -/
+def parseSent (t : String) : Option (Mon.Sent String) :=
+  if !t.startsWith "x" then none else
+  match t.splitOn "+", t.splitOn "!" with
+  | xk :: ev :: more, _ =>
+    if !xk.contains '!' then some { k := parseX xk, lost := false, out := parseOut ("+".intercalate (ev :: more)) }
+    else match t.splitOn "!" with
+      | xk :: ev :: more => some { k := parseX xk, lost := true, out := parseOut ("!".intercalate (ev :: more)) }
+      | _ => none
+  | _, xk :: ev :: more => some { k := parseX xk, lost := true, out := parseOut ("!".intercalate (ev :: more)) }
+  | _, _ => none
 
-/-- snapshot row `t2:x3:o:4:1,2:s[:L]` -/
-structure SnapRow where
-  t : String
-  att : Option Nat
-  opn : Bool
-  last : Int
-  sse : Bool
-
-def parseSnap (tok : String) : Option (String × List SnapRow × Bool) :=
-  -- S<name>[rows|reqs]D?
+/-- snapshot `S<name>[t2:x3:o:4:1,2:s[:L];…|reqs]D?` -/
+def parseSnap (tok : String) : Option (String × List Mon.Row) :=
   if !tok.startsWith "S" then none else
   match tok.splitOn "[" with
   | [nm, rest] =>
     let name := (nm.drop 1).toString
-    let done := rest.endsWith "D"
     match rest.splitOn "|" with
     | rowsTxt :: _ =>
       let rows := (rowsTxt.splitOn ";").filterMap fun r =>
         match r.splitOn ":" with
         | t :: att :: op :: last :: _ :: js :: _ =>
-          some { t := t, att := if att.startsWith "x" then some (parseX att) else none, opn := op == "o",
-                 last := last.toInt?.getD (-1), sse := js == "s" : SnapRow }
+          (parseT t).map fun n =>
+            ({ t := n, att := if att.startsWith "x" then some (parseX att) else none, opn := op == "o",
+               next := (last.toInt?.getD (-1) + 1).toNat, sse := js == "s" } : Mon.Row)
         | _ => none
-      some (name, rows, done)
+      some (name, rows)
     | _ => none
   | _ => none
 
-/-- Evaluate the monitors on one record of the implementation. -/
-def Mon.onRecord (m : Mon) (d : DState) (toks : List String) (impl : String) : Mon :=
-  Id.run do
-    let store := d.store
-    let jsonMode := d.jsonM
-    let mut m : Mon := { m with viol := none, exs := m.exs.map fun e => { e with fresh := false } }
-    let itoks := words impl
-    -- what does the op say about the exchange it opens?
-    let opSess : String := (toks[1]?).getD ""
-    let newIds : List Nat := match toks.head? with
-      | some "init" | some "listen" => ((kvGet toks "id").bind String.toNat?).toList
-      | some "call" => parseIds (kvGet toks "ids")
-      | _ => []
-    let getSessName : Option String := match toks.head? with
-      | some "get" => toks[1]?
-      | some "racewg" | some "racegw" => (toks.dropWhile (· != "|"))[1]?
-      | _ => none
-    let getLast : Option String := match toks.head? with
-      | some "get" => kvGet toks "last"
-      | some "racewg" | some "racegw" => kvGet (toks.dropWhile (· != "|")) "last"
-      | _ => none
-    -- pass 1: opened exchanges
-    for t in itoks do
-      if t.startsWith "x" && (t.splitOn ":").length == 2 && !t.contains '+' && !t.contains '!' then
+def parseHdrObs (l : Option String) : Mon.ObsHdr :=
+  match l with
+  | none => .absent
+  | some "none" => .absent
+  | some l => match splitEvId l with
+    | some (t, i) => match parseT t with
+      | some n => .ok n i
+      | none => .bad
+    | none => .bad
+
+/-- what the op says about the exchange it opens -/
+def originOf (toks : List String) : String × Mon.Origin :=
+  let np := kvGet toks "hv" == some "d"
+  let opSess := (toks[1]?).getD ""
+  match toks.head? with
+  | some "init" => (opSess, .post ((kvGet toks "id").bind String.toNat?).toList false np)
+  | some "listen" => (opSess, .post ((kvGet toks "id").bind String.toNat?).toList true true)
+  | some "call" => (opSess, .post (parseIds (kvGet toks "ids")) false np)
+  | some "get" => (opSess, .get (parseHdrObs (kvGet toks "last")) np)
+  | some "racewg" | some "racegw" | some "racerg" =>
+    let g := toks.dropWhile (· != "|")
+    ((g[1]?).getD opSess, .get (parseHdrObs (kvGet g "last")) np)
+  | _ => (opSess, .post [] false np)
+
+/-- the implementation's observation of one record, typed -/
+def parseObs (d : DState) (toks : List String) (impl : String) : Mon.Obs String String :=
+  let itoks := words impl
+  let (sess, origin) := originOf toks
+  { sess := sess, origin := origin,
+    opened := itoks.filterMap fun t =>
+      if t.startsWith "x" && !t.contains '+' && !t.contains '!' then
         match t.splitOn ":" with
-        | [xk, kind] =>
-          let k := parseX xk
-          let isGet := getSessName.isSome
-          let (stream, frm) : Option String × Nat := match getLast with
-            | none => (if isGet then some "t0" else none, 0)
-            | some "none" => (some "t0", 0)
-            | some l => match splitEvId l with
-              | some (t, i) => (some t, i + 1)
-              | none => (none, 0)
-          let e : MExch := { k := k, sess := (getSessName.getD opSess), ids := newIds, isGet := isGet,
-                             isListen := toks.head? == some "listen", stream := stream, «from» := frm, sse := kind == "sse",
-                             newProto := toks.head? == some "listen" || kvGet toks "hv" == some "d" }
-          m := m.putEx e
-        | _ => pure ()
-    -- pass 2: snapshot of the session tells which stream a fresh POST exchange serves
-    for t in itoks do
-      match parseSnap t with
-      | some (name, rows, _) =>
-        for r in rows do
-          match r.att with
-          | some k => match m.getEx k with
-            | some e =>
-              if e.fresh && !e.isGet && e.sess == name then
-                m := m.putEx { e with stream := some r.t }
-                if (m.posts.lookup (name, r.t)).isNone then m := { m with posts := m.posts ++ [((name, r.t), k)] }
-            | none => pure ()
-          | none => pure ()
-      | none => pure ()
-    -- pass 2b: a fresh POST exchange names its stream in its first event id; with a store, a stream that
-    -- receives its first append in this record was created by this record's POST
-    for t in itoks do
-      if t.startsWith "x" && t.contains '/' then
-        let sep := if t.contains '+' then "+" else "!"
-        match t.splitOn sep with
-        | xk :: ev :: _ =>
-          match m.getEx (parseX xk), (ev.splitOn "/") with
-          | some e, _ :: id :: _ =>
-            if e.fresh && !e.isGet && e.stream.isNone then
-              match splitEvId id with
-              | some (st, _) =>
-                m := m.putEx { e with stream := some st }
-                if (m.posts.lookup (e.sess, st)).isNone then m := { m with posts := m.posts ++ [((e.sess, st), e.k)] }
-              | none => pure ()
-          | _, _ => pure ()
-        | _ => pure ()
-    for t in itoks do
+        | [xk, kind] => some (parseX xk, kind == "sse")
+        | _ => none
+      else none,
+    appends := itoks.filterMap fun t =>
       match t.splitOn ":" with
-      | "a" :: sess :: stream :: _ =>
-        if stream != "t0" && (m.logs.lookup (sess, stream)).isNone && (m.posts.lookup (sess, stream)).isNone then
-          match m.exs.find? (fun e => e.fresh && !e.isGet && e.sess == sess && !e.ids.isEmpty) with
-          | some e =>
-            m := m.putEx { e with stream := some stream }
-            m := { m with posts := m.posts ++ [((sess, stream), e.k)] }
-          | none => pure ()
-      | _ => pure ()
-    -- pass 3: appends (ground truth) with their store-level routing check
-    for t in itoks do
-      match t.splitOn ":" with
-      | "a" :: sess :: stream :: rest =>
+      | "a" :: s :: stream :: rest =>
         let p := ":".intercalate rest
-        -- a POST exchange of a session with a store: the first append may precede the snapshot; learn the creator from `fresh`
-        m := m.append sess stream p
-        if p != "-" && sess != "q" then
-          match routeOK m jsonMode (provOf p) sess (some stream) none with
-          | some c => m := m.fail ("C10: (store) " ++ (c.drop 5).toString)
-          | none => pure ()
-      | _ => pure ()
-    -- pass 4: events
-    for t in itoks do
-      if t.startsWith "x" then
-        match (t.splitOn "+"), (t.splitOn "!") with
-        | xk :: ev :: more, _ => if !xk.contains '!' then m := m.onEvent store jsonMode (parseX xk) false ("+".intercalate (ev :: more))
-                                 else match t.splitOn "!" with
-                                   | xk :: ev :: more => m := m.onEvent store jsonMode (parseX xk) true ("!".intercalate (ev :: more))
-                                   | _ => pure ()
-        | _, xk :: ev :: more => m := m.onEvent store jsonMode (parseX xk) true ("!".intercalate (ev :: more))
-        | _, _ => pure ()
-    -- pass 4b: a response that the handler produced must not vanish
-    match toks with
+        (parseT stream).map fun n => ({ sess := s, stream := n, p := if p == "-" then none else some p, check := s != "q" } : Mon.Append String String)
+      | _ => none,
+    sent := itoks.filterMap parseSent,
+    snaps := itoks.filterMap fun t =>
+      (parseSnap t).map fun (name, rows) =>
+        ({ sess := name, newProto := ((getSess d name).map (·.newProto)).getD false, rows := rows } : Mon.Snap String),
+    purges := (parsePurges itoks).filterMap fun x => (parseT x.2.1).map fun n => (x.1, n, x.2.2) }
+
+def DMon.init (store jsonMode : Bool) : DMon := { core := Mon.init store jsonMode }
+
+/-- Evaluate the monitors on one record of the implementation: the typed core, plus two checks that relate
+the *operation* to the observation (a response the handler produced must not vanish). -/
+def DMon.onRecord (m : DMon) (d : DState) (toks : List String) (impl : String) : DMon × Mon.Viol :=
+  let itoks := words impl
+  let r := Mon.step provOf m.core (parseObs d toks impl)
+  let m : DMon := { m with core := r.1 }
+  let (m, extra) : DMon × Option String := match toks with
     | "init" :: _ :: _ =>
       let id := (kvGet toks "id").getD "0"
       if !(itoks.any fun t => t.endsWith s!"/R.{id}.init" || t.endsWith s!",R.{id}.init") then
-        m := m.fail "C10: the initialize response was not written to the exchange of its request"
+        (m, some "C10: the initialize response was not written to the exchange of its request")
+      else (m, none)
     | ["resp", n, r, x] =>
-      if store && n.startsWith "s" && !m.gone.contains n then
+      if d.store && n.startsWith "s" && !m.gone.contains n then
         let p := ".".intercalate ["R", r, n, r, x]
         if !(itoks.any fun t => t.startsWith s!"a:{n}:" && t.endsWith (":" ++ p)) then
-          m := m.fail "C10: a response produced by the handler reached neither an exchange nor the store (lost)"
-    | ["delete", n] => m := { m with gone := m.gone ++ [n] }
-    | ["kill", n] => m := { m with gone := m.gone ++ [n] }
-    | _ => pure ()
-    -- pass 5: quiescent-state checks (C08 only with a store, protocol < 2026-07-28)
-    if store then
-      -- (a) a resume must replay everything after Last-Event-ID
-      for e in m.exs do
-        if e.fresh && e.isGet && e.sse && !e.failing then
-          match e.stream with
-          | some t =>
-            let n := (m.log e.sess t).length
-            if e.from ≤ n && e.from + e.nrecv != n then
-              m := m.fail "C08: the resume did not deliver every stored message after Last-Event-ID (lost, or duplicated)"
-          | none => pure ()
-      -- (b) attached and open SSE streams: lastIdx is the last store index; a healthy exchange has received everything
-      for t in itoks do
-        match parseSnap t with
-        | some (name, rows, _) =>
-          let newp := ((getSess d name).map (·.newProto)).getD false
-          if !newp then
-            for r in rows do
-              match r.att with
-              | some k =>
-                if r.opn && r.sse then
-                  let n := (m.log name r.t).length
-                  if r.last + 1 != (n : Int) then
-                    m := m.fail "C08: lastIdx of an attached stream is not the index of the last stored event"
-                  match m.getEx k with
-                  | some e => if !e.failing && e.sess == name && e.from + e.nrecv != n then
-                      m := m.fail "C08: an attached, healthy exchange has not received every message written to its stream"
-                  | none => pure ()
-              | none => pure ()
-        | none => pure ()
-    return m
+          (m, some "C10: a response produced by the handler reached neither an exchange nor the store (lost)")
+        else (m, none)
+      else (m, none)
+    | ["delete", n] => ({ m with gone := m.gone ++ [n] }, none)
+    | ["kill", n] => ({ m with gone := m.gone ++ [n] }, none)
+    | _ => (m, none)
+  -- C02 on the streamable server: a call is refused as "duplicate in-flight id" only if one of its ids IS in flight.
+  -- In flight = accepted by an earlier POST of the session and its handler has not finished (`resp` is the handler finishing,
+  -- whether or not its response could be delivered).
+  let opened : List (Nat × String) := itoks.filterMap fun t =>
+    if t.startsWith "x" && !t.contains '+' && !t.contains '!' then
+      match t.splitOn ":" with
+      | [xk, kind] => some (parseX xk, kind)
+      | _ => none
+    else none
+  let (m, extra02) : DMon × Option String := match toks with
+    | "call" :: n :: _ =>
+      if !n.startsWith "s" || m.gone.contains n then (m, none) else
+      let ids := (parseIds (kvGet toks "ids")).eraseDups
+      match opened.head? with
+      | some (_, kind) =>
+        if kind == "sse" || kind == "json" then ({ m with inflight := m.inflight ++ ids.map fun r => (n, r) }, none)
+        else if kind == "400" && !(ids.any fun r => m.inflight.contains (n, r)) then
+          (m, some "C02: a well-formed call whose id is not in flight (its earlier user has been answered or its response was dropped as undeliverable) was refused as a duplicate in-flight id")
+        else (m, none)
+      | none => (m, none)
+    | "duprace" :: n :: _ =>
+      let ids := (parseIds (kvGet toks "ids")).eraseDups
+      if opened.any (fun x => x.2 == "sse" || x.2 == "json") then ({ m with inflight := m.inflight ++ ids.map fun r => (n, r) }, none)
+      else (m, none)
+    | ["resp", n, r, _] => ({ m with inflight := m.inflight.erase (n, r.toNat?.getD 0) }, none)
+    | _ => (m, none)
+  ({ m with extra10 := extra.orElse fun _ => extra02 }, r.2)
 
 /-! ## engine -/
-
-def restrictTo (p : String) (v : Option String) : Option String :=
-  match v with
-  | none => none
-  | some c => if p == "" || c.startsWith p then some c else none
 
 def engine (prop : String) : Engine DState where
   init := {}
@@ -829,13 +741,19 @@ def engine (prop : String) : Engine DState where
     | ["reset"] => ({}, { model := "ok" })
     | ["endcase"] => (d, { model := "ok" })
     | ["cfg", mode, resp, st] =>
-      let d : DState := { store := st == "store", jsonM := resp == "json" }
+      let d : DState := { store := st == "store", jsonM := resp == "json", mon := DMon.init (st == "store") (resp == "json") }
       ({ d with cfg := some (mkCfg d (mode == "stateless")) }, { model := "ok" })
     | _ =>
       if d.cfg.isNone then (d, { model := "nocfg" }) else
+      -- evictions are choices of the store (they depend on byte sizes): the model takes them from the record
+      let itoks0 := words impl
+      let d := { d with evicts := parsePurges itoks0, ptoks := itoks0.filter (·.startsWith "p:"), win := itoks0.contains "win=1" }
+      -- (they happen inside `Append`, before the new entry is added: for a plain op they take effect at its end —
+      -- nothing in it reads the store after an append —, the race ops place them between their two parties)
       match modelOp d toks with
       | none => (d, { model := "bad-op" })
       | some o =>
+        let o := { o with d := applyEvicts o.d }
         let endTxt := o.endsX.map fun k => s!"x{k}."
         -- handler-level exchanges end at once; their end tokens sort with the others by number
         let (body, dn) := renderDelta d o.d o.extra o.snaps
@@ -845,11 +763,17 @@ def engine (prop : String) : Engine DState where
           let (pre, post) := ws.span (fun t => !t.startsWith "S")
           " ".intercalate (pre ++ endTxt ++ post)
         let model := body ++ o.tail
-        let m := d.mon.onRecord dn toks impl
+        let (m, v) := d.mon.onRecord dn toks impl
+        -- first violated clause of the requested property: typed core, then the op-level clause
+        let v08 := v.v08.map Mon.Clause08.text
+        let ext := fun (p : String) => m.extra10.filter (·.startsWith p)
+        let v10 := (v.v10.map Mon.Clause10.text).orElse fun _ => ext "C10"
+        let mviol := if prop == "C08" then v08 else if prop == "C10" then v10 else if prop == "C02" then ext "C02"
+          else (v10.orElse fun _ => v08).orElse fun _ => ext "C02"
         let crashed := impl.startsWith "panic" || (words impl).contains "w=panic" || (impl.splitOn "PANIC").length > 1
         let viol := if crashed then some ((if prop == "" then "C08" else prop) ++ ": the server panicked while handling this operation")
-                    else restrictTo prop m.viol
-        ({ dn with mon := m }, { model := model, violated := viol })
+                    else mviol
+        ({ dn with mon := m, evicts := [], ptoks := [] }, { model := model, violated := viol })
 
 end Resume
 
